@@ -98,6 +98,8 @@ pub enum Sym {
     OwnDeposit,
     Accrue,
     PulseHealth(u8),
+    /// the permissionless reward settlement of a subject account's position in bank 0 (side enumeration only)
+    SettleEmissions(u8),
 }
 
 pub fn alphabet(tier: Tier) -> Vec<Sym> {
@@ -146,6 +148,7 @@ pub fn build_ix(sc: &Sc, s: &Store, sym: Sym) -> Ix {
         Sym::OwnDeposit => ix::deposit(w.group, w.users[sc.liq].account, liq, w.banks[0].key, ta(0), w.banks[0].token_program, 5_000_000, None, vec![]),
         Sym::Accrue => ix::accrue(w.group, w.banks[0].key),
         Sym::PulseHealth(i) => ix::pulse_health(acct(i), rem(i)),
+        Sym::SettleEmissions(i) => ix::settle_emissions(acct(i), w.banks[0].key),
     }
 }
 
@@ -632,11 +635,11 @@ pub fn run(tier: Tier) -> Outcome {
     }
     // side enumeration: every list up to length 5 over a bracket skeleton plus instructions of this program that
     // succeed on their own (the third party's deposit into its own account, the interest crank, the health pulse)
-    let side = [Sym::Start(0), Sym::End(0), Sym::WithdrawSmall(0), Sym::RepayMid(0), Sym::OwnDeposit, Sym::Accrue, Sym::PulseHealth(0)];
+    let side = [Sym::Start(0), Sym::End(0), Sym::WithdrawSmall(0), Sym::RepayMid(0), Sym::OwnDeposit, Sym::Accrue, Sym::PulseHealth(0), Sym::SettleEmissions(0)];
     for lists in shape_chunks(&side, 5) {
         let results: Vec<ShapeOut> = lists.par_iter().map(|l| run_shape(&sc, l)).collect();
         for (l, r) in lists.iter().zip(results.into_iter()) {
-            let uses_extra = l.iter().any(|s| matches!(s, Sym::OwnDeposit | Sym::Accrue | Sym::PulseHealth(_)));
+            let uses_extra = l.iter().any(|s| matches!(s, Sym::OwnDeposit | Sym::Accrue | Sym::PulseHealth(_) | Sym::SettleEmissions(_)));
             *classes.entry(format!("side:{}{}", r.class, if uses_extra { ":with_own_program_ix" } else { "" })).or_insert(0) += 1;
             if found.len() < 5000 {
                 found.extend(r.found);
